@@ -185,7 +185,39 @@ func (g *c14Gen) law() (jast.Node, O, string, interface{}) {
 	for _, k := range sortedKeysOf(o) {
 		keys = append(keys, k)
 	}
-	switch r.Intn(8) {
+	switch r.Intn(10) {
+	case 8, 9:
+		// $lookup over an array of objects = field selection over that array
+		// (array-valued members are flattened into the result by both)
+		n := r.Range(1, 4)
+		os := make(A, n)
+		for j := range os {
+			os[j] = g.object()
+		}
+		doc["os"] = os
+		k := []string{"a", "b", "c", "k", "v"}[r.Intn(5)]
+		var hits A
+		fromArray := false
+		for _, x := range os {
+			if v, ok := x.(map[string]interface{})[k]; ok {
+				if a, isArr := v.([]interface{}); isArr {
+					hits = append(hits, a...)
+					fromArray = true
+				} else {
+					hits = append(hits, v)
+				}
+			}
+		}
+		osv := &jast.Name{V: "os"}
+		if len(hits) == 0 {
+			return call("count", call("lookup", osv, &jast.Str{V: k})), doc, "law:lookup-array-of-objects-missing", 0.0
+		}
+		if len(hits) == 1 && fromArray {
+			// a single hit that is a one-member array: field selection keeps the
+			// array, $lookup (here and in the reference implementation) the member
+			return &jast.Bin{Op: "=", L: call("count", call("lookup", osv, &jast.Str{V: k})), R: &jast.Num{V: 1}}, doc, "law:lookup-array-of-objects-single", true
+		}
+		return &jast.Bin{Op: "=", L: call("string", call("lookup", osv, &jast.Str{V: k})), R: call("string", &jast.Path{Steps: []jast.Node{osv, &jast.Name{V: k}}})}, doc, "law:lookup-array-of-objects", true
 	case 0:
 		if len(o) == 0 {
 			return call("merge", call("spread", ov)), doc, "law:merge-spread-empty", O{}
@@ -247,9 +279,9 @@ func init() {
 	fw.Register(&fw.Prop{
 		ID: "C14", Title: "Object construction, grouping and object functions share one object model",
 		Rule: "cases: PRNG-generated (a) groupings arr{k: v, ...} and constructor steps arr.{k: v} over 0..8 objects with unique ids whose key expression (member, concatenation, conditional, literal) maps onto 1..4 distinct strings with collisions, absent keys and non-string keys, 1..3 pairs, value expressions member / $sum / $count / nested object / nested array / missing / literal, judged by the reference model (objects unordered; duplicate-key vs illegal-key: either accepted when both faults are present); " +
-			"(b) the partition law checked structurally on arr{g: id}: every id exactly once, in input order within its group; (c) object-function laws evaluated on generated null-free objects of 0..6 members: $merge($spread(o)) = o, $count($keys(o)) = $count($spread(o)), sorted $keys = sorted member names, $each visits every member once, $sift(o, true) = o, $lookup(o,k) = o.k, $merge([o,p]) = right-biased union, $spread count. " +
+			"(b) the partition law checked structurally on arr{g: id}: every id exactly once, in input order within its group; (c) object-function laws evaluated on generated null-free objects of 0..6 members: $merge($spread(o)) = o, $count($keys(o)) = $count($spread(o)), sorted $keys = sorted member names, $each visits every member once, $sift(o, true) = o, $lookup(o,k) = o.k, $lookup(os,k) = os.k for arrays os of 1..4 such objects (array-valued members flattened), $merge([o,p]) = right-biased union, $spread count. " +
 			"non-trivial = >=2 items or >=2 members; distinct by (program, input)",
-		Assumptions: []string{"'$' is not used as a group value expression (the statement does not fix whether a one-item group presents the item or a list)", "an absent key counts as 'not a string' (ErrIllegalKey), as in the port"},
+		Assumptions: []string{"a one-item group presents the item itself to the value expression (reference implementation; the port after its repair)", "an absent key counts as 'not a string' (ErrIllegalKey), as in the port"},
 		Plan: func(tier string, seed uint64) *fw.Plan {
 			n := int64(25000)
 			if tier == "thorough" {
